@@ -73,13 +73,13 @@ static KSI_TLV *build(void) {
 	kind = btok[bi][0]; tag = (unsigned)atoi(btok[bi + 1]); nc = atoi(btok[bi + 2]); fw = atoi(btok[bi + 3]); bi += 4;
 	if (KSI_TLV_new(ctx, tag, nc, fw, &t) != KSI_OK) return NULL;
 	if (kind == 'L') { size_t n; unsigned char *b = hx_dec(btok[bi++], &n); int rc = KSI_TLV_setRawValue(t, b, n); free(b); if (rc != KSI_OK) { printf(" setraw=%d", rc); KSI_TLV_free(t); return NULL; } }
-	else if (kind == 'R') { size_t n = (size_t)atol(btok[bi++]); unsigned char *b = malloc(n + 1); int rc; memset(b, 0xAB, n); rc = KSI_TLV_setRawValue(t, b, n); free(b); if (rc != KSI_OK) { printf(" setraw=%d", rc); KSI_TLV_free(t); return NULL; } }
+	else if (kind == 'R') { size_t n = (size_t)atol(btok[bi++]); unsigned char *b = H_MALLOC(n + 1); int rc; memset(b, 0xAB, n); rc = KSI_TLV_setRawValue(t, b, n); free(b); if (rc != KSI_OK) { printf(" setraw=%d", rc); KSI_TLV_free(t); return NULL; } }
 	else { int k = atoi(btok[bi++]), i; for (i = 0; i < k; i++) { KSI_TLV *c = build(); if (c == NULL) { KSI_TLV_free(t); return NULL; } if (KSI_TLV_appendNestedTlv(t, c) != KSI_OK) { KSI_TLV_free(c); KSI_TLV_free(t); return NULL; } } }
 	return t;
 }
 
 int main(void) {
-	char *line = NULL; size_t cap = 0; char **tok = malloc(sizeof(char *) * 4096);
+	char *line = NULL; size_t cap = 0; char **tok = H_MALLOC(sizeof(char *) * 4096);
 	if (KSI_CTX_new(&ctx) != KSI_OK) return 2;
 	while (getline(&line, &cap, stdin) > 0) {
 		int n; size_t len; unsigned char *raw;
@@ -108,7 +108,7 @@ int main(void) {
 				if (rc == KSI_OK) {
 					unsigned char *buf; size_t sl = 0; int r2;
 					printf(" tree="); r2 = print_el(e); printf(" exp=%d", r2);
-					buf = malloc(len + 8);
+					buf = H_MALLOC(len + 8);
 					if (KSI_TlvElement_serialize(e, buf, len + 8, &sl, 0) == KSI_OK) { printf(" ser="); hx_print(buf, sl); } else printf(" ser=ERR");
 					free(buf);
 				}
@@ -131,7 +131,7 @@ int main(void) {
 			t = build();
 			if (t == NULL) printf(" rc=build-refused\n");
 			else {
-				unsigned char *buf = malloc(bufsize + 1); size_t out = 0; unsigned char *ser = NULL; size_t sl = 0; int rc, ra;
+				unsigned char *buf = H_MALLOC(bufsize + 1); size_t out = 0; unsigned char *ser = NULL; size_t sl = 0; int rc, ra;
 				rc = KSI_TLV_writeBytes(t, buf, bufsize, &out, 0);
 				printf(" rc=%d len=%zu", rc, rc == KSI_OK ? out : 0);
 				if (rc == KSI_OK) { KSI_TLV *back = NULL; printf(" head="); hx_print(buf, out < 8 ? out : 8); if (out <= 64) { printf(" all="); hx_print(buf, out); }
@@ -143,7 +143,7 @@ int main(void) {
 				KSI_free(ser); free(buf); KSI_TLV_free(t);
 			}
 		} else if (line[0] == 'S' || line[0] == 'K') {
-			unsigned char *buf = malloc(0xffff + 4); int rc = 0, first = 1; size_t total = 0;
+			unsigned char *buf = H_MALLOC(0xffff + 4); int rc = 0, first = 1; size_t total = 0;
 			raw = hx_dec(line + 2, &len);
 			printf("%c ", line[0]);
 			if (line[0] == 'S') {
